@@ -49,6 +49,45 @@ PROPS["C01"] = {
                     "print shows numbers in shortest decimal form without exponent"],
 }
 
+PROPS["C11"] = {
+    "pkg": "p11",
+    "level": "exploration",
+    "level_text": "For each randomly drawn array or string (length 0-7, several element types, non-ASCII code points) the integer index window "
+                  "[-n-2, n+2] is swept completely for reads, writes and all pairs of slice bounds (including omitted ones), plus 14 special "
+                  "indices (fractions, 2^31, 2^53, +-2^63, 1e300, NaN, +-Inf, -0); each probe is a program whose output and error class are "
+                  "predicted by the index/slice law. Exhaustive per container inside the window, sampled over containers.",
+    "level_note": "The law is implemented in the reference interpreter (harness/m/interp.go: index, bounds); for |i| >= 2^63 either the "
+                  "'not an integer' or the 'out of bounds' panic is accepted because the documents only promise a panic.",
+    "technique": "property-based testing with per-container exhaustive index/bounds sweep against the stated law (rapid + reference model)",
+    "tests": [
+        {"name": "TestProp", "quick": {"shards": 8, "checks": 120}, "thorough": {"shards": 16, "checks": 1500}},
+    ],
+    "rule": "cases: one program per (container, probe); probes = read c[i], write c[i]=v (with an alias observing), slice c[a:b] followed by "
+            "freshness tests (mutating source and slice in turn); index given as literal, arithmetic expression or variable. Non-trivial = "
+            "index or a bound in {-n-1,-n,-1,0,n-1,n,n+1}, or a special value, or a non-ASCII string; distinct by source text.",
+    "exhaustive_part": "integer window [-n-2, n+2] for reads, writes and all bound pairs, per generated container",
+    "assumptions": ["strings are sequences of code points (spec.md#strings)"],
+}
+
+PROPS["C12"] = {
+    "pkg": "p12",
+    "level": "exploration",
+    "level_text": "Model-based stateful testing: ~2*10^4 (quick) / ~4*10^5 (thorough) random histories of 5-40 map operations (nested "
+                  "iteration bodies acting on the iterated map, aliases, four value types), each compared step by step with an "
+                  "insertion-ordered dictionary model: printed map, len, has for every alphabet key after every action, visited keys, panic class.",
+    "level_note": "The dictionary model is harness/m (MapV: key slice + Go map, iteration over a snapshot of the keys skipping deleted ones). "
+                  "Histories that end in the documented missing-key panic are compared up to the panic.",
+    "technique": "model-based stateful property testing against an insertion-ordered dictionary model (rapid)",
+    "tests": [
+        {"name": "TestProp", "quick": {"shards": 8, "checks": 2500}, "thorough": {"shards": 16, "checks": 25000}},
+    ],
+    "rule": "cases: histories over maps m1, m2 (alias of m1 in half the cases), m3 with keys {a,b,c,d,'x y',for}: literal (re)construction, "
+            "m[k]=v, m.k=v, del (also of the key being visited), guarded and unguarded lookup, has, len, ==/!= against maps and literals, "
+            "for-range with bodies of up to 3 nested actions on the same map and break. Non-trivial = delete followed by re-insert/overwrite "
+            "of that key, or a mutation of the map being iterated, or an action through the alias; distinct by source text.",
+    "assumptions": ["map printing shows key:value pairs in insertion order as in the docs' examples"],
+}
+
 NOT_APPLICABLE = {}
 
 ENGINES = [
